@@ -18,6 +18,8 @@ use tokio::{
 mod filter;
 pub(crate) mod recv;
 pub(crate) mod send;
+#[cfg(feature = "verif-hooks")]
+pub mod verif;
 
 pub use filter::{
     rate_limiter::{RateLimiter, RateLimiterBuilder},
